@@ -127,7 +127,13 @@ def confirm_hang(ctx, drv, m):
     one = ctx.path("hang-confirm-%s.ndjson" % m.get("line"))
     with open(one, "w") as f:
         f.write(json.dumps({"segs": m["segs"], "val": {"t": "err", "r": ""}, "clean": False, "nfill": 0}) + "\n")
-    rc, out, err = gobuild.run_driver(ctx, drv, ["c01", one], timeout=3400, env={"VERIF_C01_MUT": "0", "VERIF_C01_HANG": "300"})
+    lim = (m.get("variant") or "").split("/")[-1]
+    only = "%s|%s|%s" % (m.get("mode"), lim, m.get("consumer"))
+    try:
+        rc, out, err = gobuild.run_driver(ctx, drv, ["c01", one], timeout=900,
+                                          env={"VERIF_C01_MUT": "0", "VERIF_C01_HANG": "300", "VERIF_C01_ONLY": only})
+    except Inconclusive:
+        return True      # not even the single consumer run finished within 15 minutes
     return rc == 3 and '"kind":"hang"' in out
 
 
